@@ -7,7 +7,7 @@
     right after a successful precompile return agrees. *)
 From Coq Require Import ZArith List Bool.
 Import ListNotations.
-Open Scope Z_scope.
+Local Open Scope Z_scope.
 Require Import Nib.C04.Model.
 
 Record observed := {
